@@ -256,7 +256,7 @@ static void run_history(vf::Ctx& ctx, const Problem& P, Solver& es, vw::OpCtl& c
 }
 
 static const int GROUP_KINDS[3][2] = {{0, 1}, {2, 3}, {4, 5}};
-static long n_explore(const vf::Ctx& ctx) { return ctx.thorough ? 16000L : 640L; }
+static long n_explore(const vf::Ctx& ctx) { return ctx.thorough ? 3000L : 640L; }
 static long n_corpus() { return sizeof(T) == 8 ? 140L : 0L; }
 long vf_ncases(const vf::Ctx& ctx) { return n_explore(ctx) + n_corpus(); }
 
